@@ -5,6 +5,7 @@
 -/
 import Djc.Proofs.Render
 import Djc.Proofs.Plain
+import Djc.Proofs.LeafSpec
 import Djc.Spec.Render
 namespace Djc.Props.C03
 open Djc.Tpl Djc.Render Djc.Proofs.Render
@@ -129,6 +130,112 @@ theorem plain_output_independent_of_world (env : Env) (fuel : Nat) (page : List 
   rw [(Djc.Proofs.Plain.model_plain env fuel).1 page ctx w hp hc,
       (Djc.Proofs.Plain.model_plain env fuel).1 page ctx w' hp hc, hs]
   rfl
+
+/-- names a template can use are none of the internal keys -/
+theorem usable_name_facts (x : Str) (h : Djc.Proofs.Calm.internal x = false) :
+    x ≠ compKey ∧ startsWith injectPrefix x = false ∧ x ≠ permKey ∧ x ≠ rcRootKey := by
+  refine ⟨?_, ?_, ?_, ?_⟩
+  · intro e; subst e; revert h; decide
+  · cases x with
+    | nil => rfl
+    | cons c rest =>
+      cases hs : startsWith injectPrefix (c :: rest) with
+      | false => rfl
+      | true =>
+        simp only [startsWith, injectPrefix, List.isPrefixOf, Bool.and_eq_true, beq_iff_eq] at hs
+        simp only [Djc.Proofs.Calm.internal, ← hs.1] at h
+        revert h; decide
+  · intro e; subst e; revert h; decide
+  · intro e; subst e; revert h; decide
+
+/-- **Isolated mode, end to end for one component: the template sees only what it was given.**  A component tag
+with an empty body, no enclosing component, in isolated mode (or with `only`), on a context without for-loop layers
+(the listed finding `forloop-layer-leaks-into-isolated` is about those): the model of the code — isolated copy,
+`get_context_data`, snapshot, deferred render, attribute pass — prints exactly what the reading of the property
+prints, in which the template's variables are `[[]] ++ [data] ++ [component_vars]` and nothing else.  All contexts,
+worlds, keyword arguments, plain templates with usable names. -/
+theorem leaf_component_isolated_sees_only_its_data (env : Env) (i : Nat) (name : Str) (kwargs : List (Str × Expr))
+    (only dyn : Bool) (ctx : Ctx) (w : World) (e : Djc.SpecRender.SEnv) (s : Djc.SpecRender.SState) (d : CompDef)
+    (toks : List Tok) (st : Nat)
+    (hiso : (only || env.isolated) = true)
+    (h0 : hasL forloopKey (ctx.headD []) = false) (hloop : ∀ l ∈ ctx, hasL forloopKey l = false)
+    (hr : env.raiseAt = none) (hd : findDef env name = some d) (hdyn : isDynName name = false)
+    (hp : Djc.Proofs.Plain.plainL d.template = true) (ho : Djc.Proofs.Calm.okNamesL d.template = true)
+    (hsrc : d.data.all (fun kv => Djc.Proofs.Leaf.pureSrc kv.2) = true)
+    (hsteps : ¬ w.steps ≥ env.maxSteps) (hgcd : w.gcds < env.maxInst) (hext : isExtracting ctx = false)
+    (hpar : ∀ p, ctxGet (isolatedCopy ctx) compKey ≠ some (.compRef p)) (hprov : w.provideCache = [])
+    (hf1 : alGet w.nextId w.ctxCache = none) (hf2 : alGet w.nextId w.rendererCache = none)
+    (hf3 : alGet w.nextId w.childAttrs = none) (hf4 : w.allRefIds.contains w.nextId = false)
+    (hc : Djc.Proofs.Plain.ctxFree (Djc.Proofs.Leaf.leafCtx (isolatedCopy ctx) w.nextId (evalKwargs ctx kwargs) d) = true)
+    (hok : Djc.Proofs.Plain.pNodes env.maxSteps (i + 1) d.template
+      (Djc.Proofs.Leaf.leafCtx (isolatedCopy ctx) w.nextId (evalKwargs ctx kwargs) d) (w.steps + 1) = (.ok toks, st))
+    (he : e.vars = ctx) (hsid : s.nextId = w.nextId) (hss : s.steps = w.steps) (hidle : ¬ s.nextId > env.maxInst)
+    (hc2 : Djc.Proofs.Plain.ctxFree (Djc.Proofs.LeafSpec.specVars true ctx w.nextId (evalKwargs ctx kwargs) d) = true) :
+    ((renderNode env (i + 6) (.comp name kwargs only dyn []) ctx).run.run w).1 =
+        .ok (.marker name w.nextId :: addRootAttrs [idAttr w.nextId] toks) ∧
+      ∃ s', (Djc.SpecRender.sNode env (i + 6) (.comp name kwargs only dyn []) e).run s =
+        .ok (.marker name w.nextId :: addRootAttrs [idAttr w.nextId] toks, s') := by
+  have hctx' : isolatedCopy ctx = if only || env.isolated then isolatedCopy ctx else ctx := by rw [hiso]; rfl
+  have hbase : ∀ k, Djc.Proofs.Calm.internal k = false →
+      ctxGet (isolatedCopy ctx) k = ctxGet (if only || env.isolated then [[]] else ctx) k := by
+    intro k hk
+    obtain ⟨a, b, c, dd⟩ := usable_name_facts k hk
+    rw [hiso, isolated_copy_hides ctx k a b c dd h0 (fun l hl hf => by rw [hloop l hl] at hf; cases hf)]
+    rfl
+  obtain ⟨h1, s', h2, _⟩ := Djc.Proofs.LeafSpec.leaf_component_model_eq_spec env i name kwargs only dyn ctx (isolatedCopy ctx)
+    w e s d toks st hctx' hr hd hdyn hp ho hsrc hsteps hgcd hext hpar hprov hf1 hf2 hf3 hf4 hc hok he hsid hss hidle
+    (by rw [hiso]; exact hc2) hbase
+  exact ⟨h1, s', h2⟩
+
+/-- **2-run non-interference for one component** (isolated mode or `only`; all contexts without for-loop layers, all
+worlds): two pages that pass the same keyword values to a component but differ arbitrarily in every other variable
+get the same tokens from it — through the whole deferred pipeline of the model of the code. -/
+theorem leaf_component_isolated_noninterference (env : Env) (i : Nat) (name : Str) (kwargs : List (Str × Expr))
+    (only dyn : Bool) (ctx1 ctx2 : Ctx) (w : World) (d : CompDef) (toks1 toks2 : List Tok) (st1 st2 : Nat)
+    (hiso : (only || env.isolated) = true)
+    (hkw : evalKwargs ctx1 kwargs = evalKwargs ctx2 kwargs)
+    (h01 : hasL forloopKey (ctx1.headD []) = false) (hloop1 : ∀ l ∈ ctx1, hasL forloopKey l = false)
+    (h02 : hasL forloopKey (ctx2.headD []) = false) (hloop2 : ∀ l ∈ ctx2, hasL forloopKey l = false)
+    (hr : env.raiseAt = none) (hd : findDef env name = some d) (hdyn : isDynName name = false)
+    (hp : Djc.Proofs.Plain.plainL d.template = true) (ho : Djc.Proofs.Calm.okNamesL d.template = true)
+    (hsrc : d.data.all (fun kv => Djc.Proofs.Leaf.pureSrc kv.2) = true)
+    (hsteps : ¬ w.steps ≥ env.maxSteps) (hgcd : w.gcds < env.maxInst)
+    (hext1 : isExtracting ctx1 = false) (hext2 : isExtracting ctx2 = false)
+    (hpar1 : ∀ p, ctxGet (isolatedCopy ctx1) compKey ≠ some (.compRef p))
+    (hpar2 : ∀ p, ctxGet (isolatedCopy ctx2) compKey ≠ some (.compRef p)) (hprov : w.provideCache = [])
+    (hf1 : alGet w.nextId w.ctxCache = none) (hf2 : alGet w.nextId w.rendererCache = none)
+    (hf3 : alGet w.nextId w.childAttrs = none) (hf4 : w.allRefIds.contains w.nextId = false)
+    (hc1 : Djc.Proofs.Plain.ctxFree (Djc.Proofs.Leaf.leafCtx (isolatedCopy ctx1) w.nextId (evalKwargs ctx1 kwargs) d) = true)
+    (hc2 : Djc.Proofs.Plain.ctxFree (Djc.Proofs.Leaf.leafCtx (isolatedCopy ctx2) w.nextId (evalKwargs ctx2 kwargs) d) = true)
+    (hok1 : Djc.Proofs.Plain.pNodes env.maxSteps (i + 1) d.template
+      (Djc.Proofs.Leaf.leafCtx (isolatedCopy ctx1) w.nextId (evalKwargs ctx1 kwargs) d) (w.steps + 1) = (.ok toks1, st1))
+    (hok2 : Djc.Proofs.Plain.pNodes env.maxSteps (i + 1) d.template
+      (Djc.Proofs.Leaf.leafCtx (isolatedCopy ctx2) w.nextId (evalKwargs ctx2 kwargs) d) (w.steps + 1) = (.ok toks2, st2)) :
+    ((renderNode env (i + 6) (.comp name kwargs only dyn []) ctx1).run.run w).1 =
+      ((renderNode env (i + 6) (.comp name kwargs only dyn []) ctx2).run.run w).1 := by
+  have hctx1 : isolatedCopy ctx1 = if only || env.isolated then isolatedCopy ctx1 else ctx1 := by rw [hiso]; rfl
+  have hctx2 : isolatedCopy ctx2 = if only || env.isolated then isolatedCopy ctx2 else ctx2 := by rw [hiso]; rfl
+  have hb : ∀ (ctx : Ctx), hasL forloopKey (ctx.headD []) = false → (∀ l ∈ ctx, hasL forloopKey l = false) →
+      ∀ k, Djc.Proofs.Calm.internal k = false → ctxGet (isolatedCopy ctx) k = ctxGet ([[]] : Ctx) k := by
+    intro ctx h0 hloop k hk
+    obtain ⟨a, b, c, dd⟩ := usable_name_facts k hk
+    rw [isolated_copy_hides ctx k a b c dd h0 (fun l hl hf => by rw [hloop l hl] at hf; cases hf)]
+    rfl
+  have hs1 := Djc.Proofs.LeafSpec.leaf_sameVars (isolatedCopy ctx1) [[]] w.nextId (evalKwargs ctx1 kwargs) d (hb ctx1 h01 hloop1)
+  have hs2 := Djc.Proofs.LeafSpec.leaf_sameVars (isolatedCopy ctx2) [[]] w.nextId (evalKwargs ctx2 kwargs) d (hb ctx2 h02 hloop2)
+  have e1 := (Djc.Proofs.LeafSpec.pNodes_same env.maxSteps (i + 1)).1 d.template _ _ (w.steps + 1) hp ho hs1
+  have e2 := (Djc.Proofs.LeafSpec.pNodes_same env.maxSteps (i + 1)).1 d.template _ _ (w.steps + 1) hp ho hs2
+  have hcommon : (([[]] : Ctx) ++ [Djc.Proofs.Leaf.dataPure w.nextId (evalKwargs ctx1 kwargs) d.data []] ++
+      [[(compVarsKey, Djc.SpecRender.compVarsOf [])]]) =
+      (([[]] : Ctx) ++ [Djc.Proofs.Leaf.dataPure w.nextId (evalKwargs ctx2 kwargs) d.data []] ++
+      [[(compVarsKey, Djc.SpecRender.compVarsOf [])]]) := by rw [hkw]
+  rw [hcommon] at e1
+  have : (Except.ok toks1, st1) = ((Except.ok toks2, st2) : Djc.Proofs.Plain.PR) := by rw [← hok1, ← hok2, e1, e2]
+  have ht : toks1 = toks2 := by injection this with a _; injection a
+  rw [Djc.Proofs.Leaf.leaf_component env i name kwargs only dyn ctx1 (isolatedCopy ctx1) w d toks1 st1 hctx1 hr hd hdyn hp hsrc
+        hsteps hgcd hext1 hpar1 hprov hf1 hf2 hf3 hf4 hc1 hok1,
+      Djc.Proofs.Leaf.leaf_component env i name kwargs only dyn ctx2 (isolatedCopy ctx2) w d toks2 st2 hctx2 hr hd hdyn hp hsrc
+        hsteps hgcd hext2 hpar2 hprov hf1 hf2 hf3 hf4 hc2 hok2, ht]
 
 /-- The property at full strength for the model of the code: in isolated mode the tokens of a page
 holding one component tag with literal arguments do not depend on the page's variables.  OPEN, and
